@@ -905,7 +905,7 @@ pub fn locate_tail(b: &[u8], spec: &TailSpec) -> Result<(usize, usize), usize> {
 	let mut found = vec![];
 	for pos in (0..b.len()).rev() {
 		if let Some((l, n)) = read_bigsize(b, pos) {
-			if (pos + n) as u64 + l == b.len() as u64 {
+			if ((pos + n) as u64).checked_add(l) == Some(b.len() as u64) {
 				if let Some(types) = parse_tlv_stream(&b[pos + n..]) {
 					if types.iter().all(|t| spec.known.contains(t)) && spec.always.iter().all(|t| types.contains(t)) {
 						found.push((pos, pos + n));
@@ -1114,7 +1114,15 @@ pub fn corrupt_object(cx: &Corruptor, bytes: &[u8], odd_value: &[u8], cuts: &[u3
 		match &got {
 			ReadOutcome::Err(_) => st.mutations_err += 1,
 			_ => {
-				if cx.same(&base, &got) {
+				// (no `==` against the original here: LDK's equality debug-asserts internal consistency of cached
+				// transactions, which a value-level corruption may break without making the encoding invalid)
+				let re = match &got {
+					ReadOutcome::Monitor(m) => m.encode(),
+					ReadOutcome::Update(u) => u.encode(),
+					ReadOutcome::Manager(_, b) => b.clone(),
+					ReadOutcome::Err(_) => vec![],
+				};
+				if same_bytes_modulo_order(&re, bytes) {
 					st.mutations_ok_same += 1;
 				} else {
 					st.mutations_ok_other += 1;
